@@ -2,38 +2,40 @@ package c20
 
 import (
 	"fmt"
-	"os"
 	"testing"
 
-	"github.com/youzan/ZanRedisDB/engine"
+	"github.com/youzan/ZanRedisDB/common"
 )
 
 func TestZZProbe(t *testing.T) {
-	base, engs := openAll(engineNames())
-	defer os.RemoveAll(base)
-	for _, e := range engs {
-		wb := e.kv.NewWriteBatch()
-		wb.Put([]byte("abc"), []byte("1"))
-		wb.Put([]byte("abc\x00\x00"), []byte("2"))
-		wb.Put([]byte("abd"), []byte("3"))
-		fmt.Println(e.name, "commit", wb.Commit())
-		wb.Destroy()
-		for _, target := range []string{"abc", "abc\x00", "abc\x00\x00", "abc\x00\x00\x00", "abc\x01"} {
-			it, _ := e.kv.GetIterator(engine.IteratorOpts{})
-			it.Seek([]byte(target))
-			if it.Valid() {
-				fmt.Printf("%s Seek(%q) -> %q\n", e.name, target, it.Key())
-			} else {
-				fmt.Printf("%s Seek(%q) -> invalid\n", e.name, target)
-			}
-			it.SeekForPrev([]byte(target))
-			if it.Valid() {
-				fmt.Printf("%s SeekForPrev(%q) -> %q\n", e.name, target, it.Key())
-			} else {
-				fmt.Printf("%s SeekForPrev(%q) -> invalid\n", e.name, target)
-			}
-			it.Close()
-		}
-		e.close()
+	n := "mem-radix"
+	show := func(what string, keys []string, f func(e *eng) string) {
+		fmt.Printf("%-70s radix=%-22s rocksdb=%s\n", what, withEngine(n, keys, f), withEngine("rocksdb", keys, f))
 	}
+	ab := []string{"abc", "abc\x00"}
+	show(`{abc,abc\0} Seek(abc\0)`, ab, func(e *eng) string { return seekObs(e, false, "abc\x00") })
+	show(`{abc,abc\0} Seek(abc)`, ab, func(e *eng) string { return seekObs(e, false, "abc") })
+	show(`{abc,abc\0} SeekForPrev(abc\0)`, ab, func(e *eng) string { return seekObs(e, true, "abc\x00") })
+	show(`{abc,abc\0} SeekForPrev(abc\1)`, ab, func(e *eng) string { return seekObs(e, true, "abc\x01") })
+	show(`{abc,abc\0} fwd [abc,abc\xff]`, ab, func(e *eng) string { return rangeKeys(e, "abc", "abc\xff", common.RangeClose, false) })
+	show(`{abc,abc\0} fwd [abc\0,abc\xff]`, ab, func(e *eng) string { return rangeKeys(e, "abc\x00", "abc\xff", common.RangeClose, false) })
+	show(`{abc,abc\0} fwd (abc,abc\xff]`, ab, func(e *eng) string { return rangeKeys(e, "abc", "abc\xff", common.RangeLOpen, false) })
+	show(`{abc,abc\0} rev [abc,abc\xff]`, ab, func(e *eng) string { return rangeKeys(e, "abc", "abc\xff", common.RangeClose, true) })
+	show(`{abc,abc\0} rev [abc,abc\0]`, ab, func(e *eng) string { return rangeKeys(e, "abc", "abc\x00", common.RangeClose, true) })
+	one := []string{"abb", "abc"}
+	show(`{abb,abc} Seek(abc\0)`, one, func(e *eng) string { return seekObs(e, false, "abc\x00") })
+	show(`{abb,abc} SeekForPrev(abc\0)`, one, func(e *eng) string { return seekObs(e, true, "abc\x00") })
+	show(`{abb,abc} SeekForPrev(abc\0zz)`, one, func(e *eng) string { return seekObs(e, true, "abc\x00zz") })
+	show(`{abb,abc} rev [abb,abc\0]`, one, func(e *eng) string { return rangeKeys(e, "abb", "abc\x00", common.RangeClose, true) })
+	two := []string{"abb", "abc\x00x", "abc\x00y"}
+	show(`{abb,abc\0x,abc\0y} SeekForPrev(abc)`, two, func(e *eng) string { return seekObs(e, true, "abc") })
+	show(`{abb,abc\0x,abc\0y} Seek(abc)`, two, func(e *eng) string { return seekObs(e, false, "abc") })
+	show(`{abb,abc\0x,abc\0y} rev [abb,abc]`, two, func(e *eng) string { return rangeKeys(e, "abb", "abc", common.RangeClose, true) })
+	single := []string{"abb", "abc\x00x"}
+	show(`{abb,abc\0x} SeekForPrev(abc)`, single, func(e *eng) string { return seekObs(e, true, "abc") })
+	show(`{abb,abc\0x} Seek(abc)`, single, func(e *eng) string { return seekObs(e, false, "abc") })
+	tz := []string{"abc1", "abc1\x00", "abc2"}
+	show(`{abc1,abc1\0,abc2} fwd [abc1\0, abc2]`, tz, func(e *eng) string { return rangeKeys(e, "abc1\x00", "abc2", common.RangeClose, false) })
+	show(`{abc1,abc1\0,abc2} fwd [abc1, abc2]`, tz, func(e *eng) string { return rangeKeys(e, "abc1", "abc2", common.RangeClose, false) })
+	show(`{abc1,abc1\0,abc2} rev [abc1, abc2]`, tz, func(e *eng) string { return rangeKeys(e, "abc1", "abc2", common.RangeClose, true) })
 }
